@@ -295,6 +295,14 @@ pub fn chk_calls(cx: &Ctx, sequences: bool) -> Vec<Viol> {
         }
         vs.push(v("calls-multiset", format!("closure calls differ from the sequential chain: {}", diff.join("; "))));
     }
+    // the reduce operator combines n survivors with exactly n-1 calls (any tree shape), in every mode
+    if matches!(cx.case.term, Term::Reduce | Term::Fold) {
+        let n_calls = cx.obs.calls.iter().filter(|c| c.stage == ST_RED).count();
+        let exp_calls = cx.m.out.len().saturating_sub(1);
+        if n_calls != exp_calls {
+            vs.push(v("reduce-op-count", format!("the reduce operator was called {} times for {} surviving elements (expected {})", n_calls, cx.m.out.len(), exp_calls)));
+        }
+    }
     if sequences && cx.seq {
         for st in 0..3u8 {
             let a: Vec<u64> = cx.obs.calls.iter().filter(|c| c.stage == st).map(|c| c.id).collect();
@@ -530,8 +538,18 @@ pub fn chk_exact(cx: &Ctx) -> Vec<Viol> {
 
 /// Early exit (C10): the finder's next source operation after the matching evaluation is skip_to_end;
 /// no pull that starts after a skip_to_end obtains elements.
-pub fn chk_early_exit(cx: &Ctx) -> Vec<Viol> {
+pub fn chk_early_exit(cx: &Ctx, fair_k: u32) -> Vec<Viol> {
     let mut vs = Vec::new();
+    // bounded waiting: once the match has been evaluated the finder is scheduled within K decisions and calls
+    // skip_to_end, so at most K (+ one per thread already on its way) pulls can still succeed - whatever
+    // the length of the source
+    if fair_k > 0 && cx.case.src.wrapped() && !cx.seq && cx.case.term.uses_pred() && cx.obs.result.is_ok() {
+        let after: u32 = pulls_after_first_match(cx).values().sum();
+        let bound = fair_k + cx.obs.rec.n_threads as u32;
+        if after > bound {
+            vs.push(v("work-after-match", format!("{} pulls obtained elements after the first matching evaluation (bound {} under bounded waiting K={})", after, bound, fair_k)));
+        }
+    }
     if !cx.case.term.is_short_circuit() || cx.obs.result.is_err() {
         return vs;
     }
@@ -646,9 +664,15 @@ pub fn chk_lazy(cx: &Ctx) -> Vec<Viol> {
     for p in &cx.obs.probes {
         let (c0, s0, w0, t0) = match prev {
             None => (0, 0, 0, p.toks_created),
-            Some(q) => (q.calls, q.src_consumed, q.spawned, q.toks_created),
+            Some(q) => q.after,
         };
         let (dc, ds, dw, dt) = (p.calls - c0, p.src_consumed - s0, p.spawned - w0, p.toks_created - t0);
+        // the setters called at this position
+        let (sc, ss, sw, stk) = (p.after.0 - p.calls, p.after.1 - p.src_consumed, p.after.2 - p.spawned, p.after.3 - p.toks_created);
+        if sc > 0 || ss > 0 || sw > 0 || stk > 0 {
+            let site = if p.pos == 0 { "source".to_string() } else { keys[p.pos - 1].to_string() };
+            vs.push(v(&format!("setters-after:{}", site), format!("num_threads / chunk_size called after {} ran {} closure call(s), consumed {} element(s), spawned {} thread(s)", site, sc, ss, sw)));
+        }
         if dc > 0 || ds > 0 || dw > 0 || dt > 0 {
             let site = if p.pos == 0 { "source" } else { keys[p.pos - 1] };
             vs.push(v(
